@@ -215,10 +215,12 @@ func calculateOrgDocumentRefs(drs []*org.DocumentRef, cur currency.Code, rr cbc.
 		if drs == nil {
 			continue
 		}
+		// each reference is calculated in its own currency, or the document's
+		rc := cur
 		if drs.Currency != currency.CodeEmpty && drs.Currency.Def() != nil {
-			cur = drs.Currency
+			rc = drs.Currency
 		}
-		drs.Calculate(cur, rr)
+		drs.Calculate(rc, rr)
 	}
 }
 
